@@ -24,6 +24,10 @@ func lookupFlow[T any](urlTree *URLTree[T], url string) lookupFlowNodeResult[T] 
 	flows := []T{}
 	index := 0
 
+	// consumedAll is true only when every part of the URL was matched by a node:
+	// the exact node's value applies to the URL itself, not to a URL with further
+	// segments below it (the walk also stops at that node for those).
+	consumedAll := false
 	var part urlPart
 	for index, part = range splitURL {
 		log.Trace().Msgf("lookupFlowNodeResult::Looking up part %v", part)
@@ -34,6 +38,7 @@ func lookupFlow[T any](urlTree *URLTree[T], url string) lookupFlowNodeResult[T] 
 		child, found := currentNode.ConstantChildren[part.Value]
 		if found && child.IsPartOfHost == part.IsPartOfHost {
 			currentNode = child
+			consumedAll = index == lookUpLength
 			continue
 		}
 
@@ -41,15 +46,18 @@ func lookupFlow[T any](urlTree *URLTree[T], url string) lookupFlowNodeResult[T] 
 		if parametricChild != nil &&
 			parametricChild.IsPartOfHost == part.IsPartOfHost {
 			currentNode = parametricChild
+			consumedAll = index == lookUpLength
 			continue
 		}
 
+		consumedAll = false
 		break
 	}
 
-	if index == lookUpLength && currentNode.hasValue() && currentNode.WildcardChild == nil {
+	if consumedAll && currentNode.hasValue() {
 		flows = append(flows, *currentNode.Value)
-	} else if index == lookUpLength && part.IsPartOfHost &&
+	}
+	if consumedAll && part.IsPartOfHost &&
 		currentNode.WildcardChild != nil && currentNode.WildcardChild.hasValue() {
 		// case where url is host without path and filter ends with a wildcard, for example:
 		// url: "host.com", filter: "host.com/*"
